@@ -67,7 +67,10 @@ type c13Obs struct {
 	closedBy  string
 }
 
-func c13Case(side string, interval time.Duration, threshold int, pattern string) (obs c13Obs, bad, sig string) {
+// pending: a user call without a deadline is outstanding (the peer never answers it) while the
+// pings meet their fates -- the situation keep-alive exists for.  It must not delay the closing
+// of a dead session, and it must have failed by the time the session counts as closed.
+func c13Case(side string, interval time.Duration, threshold int, pattern string, pending bool) (obs c13Obs, bad, sig string) {
 	fail := func(s, format string, a ...any) {
 		if bad == "" {
 			sig, bad = "c13 "+s, fmt.Sprintf(format, a...)
@@ -162,6 +165,17 @@ func c13Case(side string, interval time.Duration, threshold int, pattern string)
 		sess.Wait()
 		obs.closedAt = time.Since(t0)
 	}()
+	pendingDone := time.Duration(-1)
+	if pending {
+		go func() {
+			if cs, ok := sess.(*ClientSession); ok {
+				cs.ListTools(ctx, nil)
+			} else {
+				sess.(*ServerSession).ListRoots(ctx, nil)
+			}
+			pendingDone = time.Since(t0)
+		}()
+	}
 	horizon := time.Duration(len(pattern)+3) * interval
 	time.Sleep(horizon - time.Since(t0))
 	synctest.Wait()
@@ -172,7 +186,14 @@ func c13Case(side string, interval time.Duration, threshold int, pattern string)
 		defer cancel()
 		return sess.Ping(pctx, nil)
 	}, fail)
+	if pending && obs.closedAt >= 0 && pendingDone < 0 {
+		fail("pending-call-outlives-session", "pattern %q: the session was closed at %v but the call that was outstanding is still blocked", pattern, obs.closedAt)
+	}
 	// shut down and check that nothing is left behind
+	if pending {
+		peerRWC.Close() // Close is graceful: it would wait for the outstanding call of a connected peer
+		synctest.Wait()
+	}
 	sess.Close()
 	peerRWC.Close()
 	synctest.Wait() // no virtual time may be needed for keep-alive to end
@@ -287,8 +308,12 @@ func TestVerifC13(t *testing.T) {
 			gen(prefix+string(c), n-1, f)
 		}
 	}
-	for _, side := range []string{"server", "client"} {
+	for _, side := range []string{"server", "client", "server+pending-call", "client+pending-call"} {
+		pending := strings.HasSuffix(side, "+pending-call")
 		for _, interval := range []time.Duration{2 * time.Second, 7 * time.Second} {
+			if pending && interval != 2*time.Second {
+				continue
+			}
 			for th := 0; th <= 3; th++ {
 				gen("", th+2, func(p string) {
 					idx, mine := cases.Next()
@@ -303,7 +328,9 @@ func TestVerifC13(t *testing.T) {
 								bad, sig = fmt.Sprintf("pattern %q: panic / bubble failure: %v", p, r), "c13 panic-or-leak"
 							}
 						}()
-						synctest.Test(t, func(t *testing.T) { obs, bad, sig = c13Case(side, interval, th, p) })
+						synctest.Test(t, func(t *testing.T) {
+							obs, bad, sig = c13Case(strings.TrimSuffix(side, "+pending-call"), interval, th, p, pending)
+						})
 					}()
 					desc := func() string {
 						return fmt.Sprintf("side=%s interval=%v threshold=%d pattern=%q", side, interval, th, p)
